@@ -54,6 +54,8 @@ type searchConfig struct {
 	PositionDetermined bool
 	// Quiescence: the leaf is a quiescence search (a window reaches it).
 	Quiescence bool
+	// Minimax: the naive search (no window, no table); only used where the property names it.
+	Minimax bool
 	make       func(param int) (search.Search, refsearch.Config)
 }
 
@@ -78,6 +80,10 @@ var searchConfigs = []searchConfig{
 		return search.AlphaBeta{Eval: search.Quiescence{Explore: captureOnly, Eval: search.Leaf{Eval: eval.Material{}}}},
 			refsearch.Config{Leaf: refsearch.LeafQuiescence, QuietExplore: captureOnly, Eval: eval.Material{}}
 	}},
+	{Name: "minimax-material", Minimax: true, make: func(int) (search.Search, refsearch.Config) {
+		return search.Minimax{Eval: search.Leaf{Eval: eval.Material{}}},
+			refsearch.Config{Leaf: refsearch.LeafStatic, Eval: eval.Material{}}
+	}},
 	{Name: "bernstein", Heavy: true, PositionDetermined: true, make: func(limit int) (search.Search, refsearch.Config) {
 		ex := bernstein.PlausibleMoveTable{Limit: limit}.Explore
 		ev := bernstein.Eval{Factor: 20}
@@ -95,6 +101,17 @@ var searchConfigs = []searchConfig{
 		return s, refsearch.Config{Explore: sargon.SkipUnderPromotions, Leaf: refsearch.LeafOnePlyIfChecked, Eval: p2}
 	}},
 }
+
+// abConfigs are the alpha-beta configurations (everything except the naive minimax).
+var abConfigs = func() []searchConfig {
+	var ret []searchConfig
+	for _, c := range searchConfigs {
+		if !c.Minimax {
+			ret = append(ret, c)
+		}
+	}
+	return ret
+}()
 
 func findConfig(name string) (searchConfig, error) {
 	for _, c := range searchConfigs {
